@@ -360,6 +360,8 @@ func (w *writer) field(depth int, kw string, f *Field) {
 	}
 	if f.Primary {
 		body = append(body, "primary = true")
+	} else if f.PrimaryFalse {
+		body = append(body, "primary = false")
 	}
 	if f.Foreign != "" {
 		body = append(body, "foreign = "+q(f.Foreign))
